@@ -88,6 +88,12 @@ def run_bayer(W, cfg):
         for ch, name in zip(got, 'RGB'):
             W.ob(f'channel {name}', ch, W.array([[flat[i][j] if colour(i, j) == name else 0 for j in range(nc)] for i in range(nr)]))
         W.ob('channels sum to the flattened image', got[0] + got[1] + got[2], W.array(flat))
+    # the same frame read with other oversampling factors in the same process (call history must not matter)
+    for os2 in (1, 2, 3):
+        if os2 != os and nr % (k * os2) == 0 and nc % (k * os2) == 0:
+            g2 = lt.detector.collect_charge_bayer(img, waves, W.array(q['R']), W.array(q['G']), W.array(q['B']), pat, oversample=os2, flatten=True)
+            col2 = lambda i, j: pat[((i // os2) % k) * k + ((j // os2) % k)]
+            W.ob(f'same frame, oversample {os2} after {os}', g2, W.array([[W.sum(img[w][i, j] * q[col2(i, j)][w] for w in range(nw)) for j in range(nc)] for i in range(nr)]))
     same = lt.detector.collect_charge_bayer(img, waves, W.array(q['R']), W.array(q['R']), W.array(q['R']), pat, oversample=os)
     W.ob('equal efficiencies reproduce the monochrome result', same, lt.detector.collect_charge(img, waves, W.array(q['R'])))
 
@@ -152,6 +158,8 @@ def run_adc(W, cfg):
         W.ob_true('warns exactly when a pixel exceeds capacity', warned == (over and cfg['warn']))
     W.ob('the caller\'s frame is untouched', e, e0)
     W.ob_concrete('requested output dtype', lambda: dt is None or out.dtype == rnp.dtype(dt))
+    W.ob_concrete('never negative, also in the requested (possibly unsigned) dtype: negative counts digitise to 0',
+                  lambda: bool(all(float(out[i, j]) >= 0 and (float(e0[i, j]) >= 0 or g != 'scalar' or float(gs) < 0 or float(out[i, j]) == 0) for (i, j) in cells)))
     # monotone for non-negative gains on non-negative inputs (scalar gain form)
     if g == 'scalar' and not cfg['sat']:
         a, b = W.real('ma', nonneg=True), W.real('mb', nonneg=True)
